@@ -4,14 +4,17 @@ import PyamgV.Generated.Facts
 import PyamgV.Proofs.StdAgg6
 import PyamgV.Proofs.NaiveAgg
 import PyamgV.Proofs.Pairwise
+import PyamgV.Proofs.ExtPairwise
 
 /-! # C12 — aggregation routines return valid partitions of the strength graph
 
 Models: `Agg.standardAggregation` (the three passes of `standard_aggregation` with the `-n`
 sentinel), `Agg.naive` (naive_aggregation) — both run by the driver (`p_std_agg`, `p_naive_agg`)
 and compared exactly with the rebuilt kernels on every run — and the transition system `Pairwise`
-(any selection order, any matched neighbour) for `pairwise_aggregation`. Every symmetric graph with
-`n ≥ 1`, self loops allowed. -/
+(any selection order, any matched neighbour) for `pairwise_aggregation`, refined by the executable
+kernel model `ExtPw.pairwise` (multimap as key-ordered insertion-stable list, `Rat` weights; driver op
+`ext_pairwise`, compared exactly with the rebuilt kernel on every run). Every symmetric graph with
+`n ≥ 1`, self loops allowed; the pairwise kernel model: every CSR pattern with in-range indices. -/
 namespace PyamgV.Props.C12
 
 /-- ids are `-1` or `0..k-1`, `k ≤ n-1` (the `-n` sentinel never collides), unaggregated = exactly the
@@ -26,8 +29,33 @@ restate naive_aggregation_spec := PyamgV.Agg.naive_spec
 members, the recorded root lies in its aggregate — for every reachable final state -/
 restate pairwise_aggregation_spec := PyamgV.Pairwise.pairwise_spec
 
+/-- refinement: a run of the executable `pairwise_aggregation` kernel model is a path of
+`Pairwise.Step` from the initial state that ends only when no node is unaggregated -/
+restate pairwise_kernel_refines := PyamgV.ExtPw.pairwise_refines
+/-- the executable kernel model returns a matching-type aggregation: one id in `1..k` per node, `k`
+roots, every id `1..k` used by its root `y[a-1] < n`, every aggregate has exactly one or two nodes -/
+restate pairwise_kernel_spec := PyamgV.ExtPw.pairwise_model_spec
+/-- the kernel model returns a result exactly for index arrays the kernel can read in bounds -/
+restate pairwise_kernel_total := PyamgV.ExtPw.pairwise_isSome_iff
+/-- one run of the kernel model is a link of a chain of matchings (`Tj = x - 1` maps the `n` nodes
+into `0..k-1`, aggregates of at most two nodes) -/
+restate pairwise_kernel_link := PyamgV.ExtPw.pairwise_model_link
+/-- composition of two assignment maps multiplies the bounds on the aggregate sizes -/
+restate assignment_comp_fiber := PyamgV.ExtPw.fiberLe_comp
+/-- `T = T1 @ T2 @ ... @ Tm`: the aggregates of `m` composed matchings have at most `2^m` nodes -/
+restate pairwise_matchings_fiber := PyamgV.ExtPw.matchChain_fiber
+
 /-! non-vacuity: the path 0–1–2 with an isolated node 3 -/
 example : (Agg.standardAggregation ⟨4, fun i => [[1],[0,2],[1],[]].getD i []⟩).1 = #[0, 0, 0, -1] := by decide
+
+/-! non-vacuity (pairwise kernel model): the weighted path 0–1–2 (weights 1, 3) with an isolated node 3:
+node 3 (key 0) is a singleton, then node 0 (key 1, first inserted) takes 1, then 2 stays alone -/
+example : ExtPw.pairwise 4 #[0,1,3,4,4] #[1,0,2,1] #[1,1,3,3] = some (#[2,2,3,1], #[3,0,2], 3) := by decide
+/-! non-vacuity (composition): two matchings 4 -> 3 -> 2 nodes -/
+example : ExtPw.MatchChain 4 [fun v => [1,1,2,0].getD v 0, fun v => [0,1,1].getD v 0] :=
+  .cons (n' := 3) (by decide) (ExtPw.fiberLe_of_bounded (n' := 3) (by decide) (by decide))
+    (.cons (n' := 2) (by decide) (ExtPw.fiberLe_of_bounded (n' := 2) (by decide) (by decide))
+      (.nil 2))
 
 /-! ### interface facts regenerated from the working tree on every run (translator tie) -/
 /-- the `kernels_smoothed_aggregation` table the models assume equals the one regenerated from the source now -/
